@@ -121,10 +121,32 @@ theorem shallowest_fold (xs fs seen : List Field) (h : Shallowest fs seen) :
     have := ih _ _ (shallowest_step fs seen x h)
     simpa [List.append_assoc] using this
 
-/-- the collected field of a name is one of the visited fields of that name, and none of them is
-    shallower; every visited name is collected exactly once -/
-theorem flatten_shallowest (t : Tree) : Shallowest (flatten t) (walkTop t) := by
+/-- the raw collection (before the names of left-out top-level fields are dropped) -/
+theorem collect_shallowest (t : Tree) : Shallowest ((walkTop t).foldl appendOrReplace []) (walkTop t) := by
   have := shallowest_fold (walkTop t) [] [] ⟨by simp, by simp, by simp, by simp⟩
-  simpa [flatten] using this
+  simpa using this
+
+theorem mem_flatten (t : Tree) (f : Field) :
+    f ∈ flatten t ↔ f ∈ (walkTop t).foldl appendOrReplace [] ∧ f.name ∉ skippedTop t := by
+  simp [flatten]
+
+/-- the collected field of a name is one of the visited fields of that name, and none of them is
+    shallower; every visited name is collected exactly once — except the names of the top-level `map:"-"`
+    fields, which are not collected at all (they hide their promoted namesakes, as in Go) -/
+theorem flatten_shallowest (t : Tree) :
+    ((flatten t).map (·.name)).Nodup ∧
+    (∀ f ∈ flatten t, f.name ∉ skippedTop t ∧ ∃ g ∈ walkTop t, SameData f g) ∧
+    (∀ f ∈ flatten t, ∀ g ∈ walkTop t, g.name = f.name → f.depth ≤ g.depth) ∧
+    (∀ g ∈ walkTop t, g.name ∉ skippedTop t → ∃ f ∈ flatten t, f.name = g.name) := by
+  have h := collect_shallowest t
+  refine ⟨flatten_names_nodup t, ?_, ?_, ?_⟩
+  · intro f hf
+    have := (mem_flatten t f).mp hf
+    exact ⟨this.2, h.fromSeen f this.1⟩
+  · intro f hf g hg e
+    exact h.minimal f ((mem_flatten t f).mp hf).1 g hg e
+  · intro g hg hn
+    obtain ⟨f, hf, e⟩ := h.covers g hg
+    exact ⟨f, (mem_flatten t f).mpr ⟨hf, e ▸ hn⟩, e⟩
 
 end ShootVerif.Mapper
